@@ -138,7 +138,15 @@ def replay(ck, em, rec, rng, p_rel, affines):
         # the scenario as TLC chose it
         primary = machines if s["mform"] == "machines" else means
         obs = call(primary, arg, stats, offs, norm)
-        if not check(obs, "models as %s, ubm argument %s" % (s["mform"], s["ukind"])):
+        clause = "IsFormula"
+        if obs.shape == exp.shape and not allclose(obs, exp):
+            # name the clause: does the same call agree with the formula once the UBM / the models are given the
+            # other way?
+            if s["ukind"] == "map" and allclose(call(primary, ubm, stats, offs, norm), exp):
+                clause = "MapUbmEqPrior"
+            elif s["mform"] == "machines" and allclose(call(means, arg, stats, offs, norm), exp):
+                clause = "MachinesEqArrays"
+        if not check(obs, "models as %s, ubm argument %s" % (s["mform"], s["ukind"]), clause):
             return
         # the other way of giving the models
         other = means if s["mform"] == "machines" else machines
